@@ -1196,6 +1196,13 @@ class Unit:
             # own: the body is the closure's block, verbatim; the signature (closures have none) comes from `//@sig`
             it = self.closure_item(f, it, int(opts["closure"]), name, opts.get("after"))
             name = opts.get("as", "%s_closure%s" % (name, opts["closure"]))
+        if opts.get("arm"):
+            # R30: the block of the match arm whose pattern matches the regex `arm=` is put under contract as a function of
+            # its own (the arms of the protocol handler's dispatcher): body = the arm's block, verbatim; signature from `//@sig`
+            if opts.get("closure"):
+                raise ExtractError("arm= and closure= exclude each other")
+            it = self.arm_item(f, it, opts["arm"], name)
+            name = opts.get("as", "%s_arm" % name)
         fn_log = {}
         rw = Rewriter(fn_log, self.tags)
         rw.noabort = bool(opts.get("noabort"))
@@ -1243,7 +1250,7 @@ class Unit:
                 raise ExtractError("anchor lost: //@sigsub /%s/ in %s" % (rx.pattern, name))
             rw.count("MANUAL sigsub /%s/ => %s" % (rx.pattern, repl), nsub)
         sig = self.name_return(sig, ret)
-        if opts.get("as") and not opts.get("closure"):
+        if opts.get("as") and not opts.get("closure") and not opts.get("arm"):
             # a second contract on the SAME real body under another name (`as=`): used where one clause of a function is a
             # recorded finding, so that the function's other clauses stay verified and a change that breaks one of them is
             # still reported against a verified baseline
@@ -1257,6 +1264,11 @@ class Unit:
                 raise ExtractError("closure= needs a //@sig line in %s" % name)
             sig = sig_override
             rw.count("R26 closure body lifted into a function (signature from the template, body verbatim)")
+        if opts.get("arm"):
+            if not sig_override:
+                raise ExtractError("arm= needs a //@sig line in %s" % name)
+            sig = sig_override
+            rw.count("R30 match-arm block lifted into a function (signature from the template, body verbatim)")
         mut_self = False
         if re.search(r"\(\s*mut\s+self\b", sig):
             # R12: Verus has no `mut self` receiver: bind it to a local instead
@@ -1522,6 +1534,34 @@ class Unit:
         for k, v in fn_log.items():
             self.log[k] = self.log.get(k, 0) + v
         self.fns.append(meta)
+
+    @staticmethod
+    def arm_item(f, it, pattern, name):
+        """locate the block `{ .. }` of the first match arm inside function item `it` whose pattern text matches the regex
+        `pattern` followed by `=>`; returns an Item-like object whose body is that block"""
+        src = f.src
+        am = re.search("(?:" + pattern + r")\s*=>\s*\{", src[it.body_open:it.end])
+        if not am:
+            raise ExtractError("anchor lost: arm=/%s/ of %s" % (pattern, name))
+        if len(re.findall("(?:" + pattern + r")\s*=>\s*\{", src[it.body_open:it.end])) != 1:
+            raise ExtractError("anchor lost: arm=/%s/ of %s is not unique" % (pattern, name))
+        pos = it.body_open + am.end() - 1
+        toks = f.toks
+        k = None
+        for i, t in enumerate(toks):
+            if t.start == pos and t.kind == "punct" and t.text == "{":
+                k = i
+                break
+        if k is None:
+            raise ExtractError("anchor lost: arm block of %s" % name)
+        e = match_close(toks, k)
+
+        class _It:
+            pass
+        o = _It()
+        o.start, o.body_open, o.end = toks[k].start, toks[k].start, toks[e].end
+        o.kind, o.name = "fn", name
+        return o
 
     @staticmethod
     def closure_item(f, it, nth, name, after=None):
